@@ -307,7 +307,7 @@ static Verdict run(const Json::Value& sc) {
 
 int main(int argc, char** argv) {
   HarnessDef d;
-  d.prop = "C11";
+  d.prop = getenv("VP_PROP") ? getenv("VP_PROP") : "C11"; // also a sub-campaign of C06 (per-cgroup instances pausing)
   d.gen = gen;
   d.run = run;
   return harnessMain(argc, argv, d);
